@@ -121,6 +121,16 @@ fn monitor(o: &SOutcome, init: u16, expect_rounds: usize, ctx: &Value, f: &mut F
                 add(f, "round-id".into(), format!("round {r}: probe carries round id {} [{ctx}]", s.probe_round), ctx.clone(), r);
             }
         }
+        // "a sequence number used in the immediately preceding round is never valid in the current
+        // one": a number the current round itself uses is certainly valid in it
+        if r > 0 {
+            let prev: std::collections::HashSet<u16> = w.sends.iter().filter(|s| s.round == r - 1).map(|s| s.seq).collect();
+            if let Some(x) = sends.iter().find(|s| prev.contains(&s.seq)) {
+                let dublin_v6 = w.cfg.strategy.multipath_strategy == MultipathStrategy::Dublin && w.cfg.strategy.target_addr.is_ipv6();
+                let regime = if dublin_v6 { "dublin-ipv6".to_string() } else { format!("tcp:initial-sequence{}63999", if init > 63999 { ">" } else { "<=" }) };
+                add(f, format!("previous-round-sequence-valid-in-current-round:{regime}:sequence-genuinely-reused"), format!("round {r} re-uses sequence {} of round {} [{ctx}]", x.seq, r - 1), ctx.clone(), r);
+            }
+        }
         if let (Some(pl), Some(first)) = (prev_last, sends.first()) {
             if first.seq != pl.wrapping_add(1) && first.seq != init {
                 add(f, "round-start-neither-next-nor-initial".into(), format!("round {r} starts at {} after {pl} (initial {init}) [{ctx}]", first.seq), ctx.clone(), r);
@@ -393,8 +403,8 @@ pub fn run(args: &Args) -> i32 {
             // at every wrap boundary (and the one before): stale response differential
             let firsts: Vec<u16> = (0..rounds).map(|r| base.world.sends[r * usize::from(m)].seq).collect();
             for r in 0..rounds - 1 {
-                let wrapped = firsts[r + 1] < firsts[r];
-                if !(wrapped || (r + 2 < rounds && firsts[r + 2] < firsts[r + 1])) {
+                let wrapped = firsts[r + 1] <= firsts[r];
+                if !(wrapped || (r + 2 < rounds && firsts[r + 2] <= firsts[r + 1])) {
                     continue;
                 }
                 let used: Vec<u16> = base.world.sends.iter().filter(|s| s.round == r).map(|s| s.seq).collect();
